@@ -333,7 +333,7 @@ fn registry_cases(report: &mut Report, batch: &mut Batch) {
       if ji % json_cases.len() != di && ji != 1 {
         continue;
       }
-      for mg in [MgKind::None, MgKind::V2, MgKind::V1] {
+      for mg in [MgKind::None, MgKind::V2, MgKind::V1, MgKind::Both] {
         for content_cached in [false, true] {
           let ver = RegVer {
             version: "1.0.0".into(),
